@@ -3,7 +3,9 @@ package rules
 
 import (
 	"fmt"
+	"go/ast"
 	"go/token"
+	"go/types"
 	"sort"
 
 	"verif/tools/internal/core"
@@ -25,11 +27,54 @@ func (c *Ctx) Load(dir string, ssa bool) *core.Module {
 		c.R.Undecided("load", dir, "module", dir, err.Error())
 		return nil
 	}
+	// ordered comparisons: not((a >= b)) is (a < b) for integers, not for floats (NaN).  The law is applied to every
+	// ordered comparison only while no loaded module of this tree compares floats (or values of a type parameter).
+	if hasFloatOrderedComparison(m) {
+		floatOrdered[c.Repo.Root] = true
+	}
+	orderedAreIntegers = !floatOrdered[c.Repo.Root]
 	c.R.Unit("modules", 1)
 	c.R.Unit("packages", len(m.Pkgs))
 	c.R.Unit("files", m.Files)
 	c.R.Unit("functions", m.Funcs)
 	return m
+}
+
+var (
+	floatOrdered       = map[string]bool{}
+	orderedAreIntegers bool
+)
+
+func hasFloatOrderedComparison(m *core.Module) bool {
+	found := false
+	for _, p := range m.Pkgs {
+		if p.TypesInfo == nil {
+			continue
+		}
+		for _, f := range p.Syntax {
+			ast.Inspect(f, func(n ast.Node) bool {
+				be, ok := n.(*ast.BinaryExpr)
+				if !ok {
+					return true
+				}
+				switch be.Op {
+				case token.LSS, token.LEQ, token.GTR, token.GEQ:
+					for _, e := range []ast.Expr{be.X, be.Y} {
+						if tv, ok := p.TypesInfo.Types[e]; ok && tv.Type != nil {
+							if _, isTP := tv.Type.(*types.TypeParam); isTP {
+								found = true
+							}
+							if b, ok := tv.Type.Underlying().(*types.Basic); ok && b.Info()&types.IsFloat != 0 {
+								found = true
+							}
+						}
+					}
+				}
+				return true
+			})
+		}
+	}
+	return found
 }
 
 func (c *Ctx) Pos(fset *token.FileSet, p token.Pos) string { return c.Repo.Rel(fset, p) }
